@@ -76,6 +76,7 @@ type formatter_ struct {
 	class_   FormatterClassLike
 	depth_   int
 	maximum_ int
+	nesting_ int // The number of collections around the current value.
 	result_  sts.Builder
 }
 
@@ -97,6 +98,7 @@ func (v *formatter_) GetMaximum() int {
 
 func (v *formatter_) FormatValue(value any) (source string) {
 	v.depth_ = 0 // An earlier call may have failed part way through.
+	v.nesting_ = 0
 	v.result_.Reset()
 	v.formatValue(value)
 	v.appendNewline()
@@ -183,6 +185,14 @@ func (v *formatter_) formatBoolean(boolean bool) {
 }
 
 func (v *formatter_) formatCollection(collection any) {
+	v.nesting_++
+	defer func() { v.nesting_-- }()
+	if v.nesting_ > v.maximum_ {
+		// Single item sequences do not increase the depth, but they nest.
+		v.appendString("[...]")
+		v.formatContext(collection)
+		return
+	}
 	v.formatSequence(collection)
 	v.formatContext(collection)
 }
